@@ -147,9 +147,48 @@ PH = [
 ]
 
 
-def placeholder_program(pname, tier):
+def rand_placeholder_variants(rng, n):
+    """random to_string literals over tuple and named variants with Ch payloads: orders, repetitions, subsets (named only:
+    format! rejects an unused positional argument), nested width/fill/alignment specs, escaped braces next to placeholders"""
+    specs = ["", ":>3", ":<2", ":^4", ":*>3", ":.0", ":.1"]
+    texts = ["", "a", " ", "-", "=", "x y", "{{", "}}", "{{}}", "[", "]"]
+    out_src, out_h = [], []
+    for k in range(n):
+        named = rng.random() < 0.5
+        nf = rng.randint(1, 3)
+        names = ["f%s" % "abc"[i] for i in range(nf)]
+        if named:
+            used = rng.sample(range(nf), rng.randint(1, nf))
+        else:
+            used = list(range(nf))
+        seq = list(used) + [rng.choice(used) for _ in range(rng.randint(0, 2))]
+        rng.shuffle(seq)
+        lit = rng.choice(texts)
+        for i in seq:
+            lit += "{%s%s}" % (names[i] if named else str(i), rng.choice(specs)) + rng.choice(texts)
+        ident = "Rnd%d" % k
+        binds = "let (%s,) = (%s,);" % (", ".join("v%d" % i for i in range(nf)), ", ".join("Ch(nd_u8())" for _ in range(nf)))
+        if named:
+            out_src.append('    #[strum(to_string = %s)]\n    %s { %s },' % (rust_str(lit), ident, ", ".join("%s: Ch" % nm for nm in names)))
+            ctor = "Ph::%s { %s }" % (ident, ", ".join("%s: v%d" % (nm, i) for i, nm in enumerate(names)))
+            rargs = ", ".join("%s = v%d" % (names[i], i) for i in sorted(set(used)))
+        else:
+            out_src.append('    #[strum(to_string = %s)]\n    %s(%s),' % (rust_str(lit), ident, ", ".join("Ch" for _ in range(nf))))
+            ctor = "Ph::%s(%s)" % (ident, ", ".join("v%d" % i for i in range(nf)))
+            rargs = ", ".join("v%d" % i for i in range(nf))
+        out_h.append(("rnd%d" % k, not named, binds, ctor, rargs, lit, True))
+    return out_src, out_h
+
+
+def placeholder_program(pname, tier, rng=None):
     hs = []
-    for nm, stub, binds, ctor, rargs, lit, sym in PH:
+    ph = list(PH)
+    src = PH_SRC
+    if rng is not None:
+        vsrc, vh = rand_placeholder_variants(rng, 4 if tier == "quick" else 16)
+        src = src.replace('    #[strum(to_string = "no placeholder {{}}")]', "\n".join(vsrc) + '\n    #[strum(to_string = "no placeholder {{}}")]')
+        ph += vh
+    for nm, stub, binds, ctor, rargs, lit, sym in ph:
         body = """    %(binds)s
     let v = %(ctor)s;
     let mut a = Buf::<48>::new();
@@ -183,11 +222,12 @@ def placeholder_program(pname, tier):
     hs.append(Harness(name="h_ph_plain_escaped", body=body, unwind=52, kind="symbolic",
                       desc="to_string with only escaped braces on a tuple variant: printed verbatim (like AsRefStr), honouring width", bound={"width": "0..24"},
                       min_covers=1, functions=["<Ph as Display>::fmt"]))
-    return Program(name=pname, enum_src=PH_SRC, harnesses=hs, summary=PH_SRC, note="placeholder literals over tuple and named variants")
+    return Program(name=pname, enum_src=src, harnesses=hs, summary=src, note="placeholder literals over tuple and named variants (fixed list + seeded random literals)")
 
 
 def build(tier, seed):
-    programs = [fixed_program("p000", tier), placeholder_program("p001", tier)]
+    rng = mk_rng(seed, "C17")
+    programs = [fixed_program("p000", tier), placeholder_program("p001", tier, rng)]
     return {
         "programs": programs,
         "stubbing": True,
